@@ -3,7 +3,7 @@ from __future__ import annotations
 
 import ast
 
-from sa.loader import norm, norm1, walk_shallow, own_nodes, call_name, subscript_writes
+from sa.loader import recv, norm, norm1, walk_shallow, own_nodes, call_name, subscript_writes
 from sa.rulekit import (nodes_where, node_calls, node_roots, nodes_calling, return_nodes, own,
                         nodes_writing_attr, must_pass, is_const, written_value, expr_is, kw,
                         call_sites)
@@ -62,7 +62,7 @@ def run(ck):
                 w = g.node_of(x)[0]
                 conn = [c for c in nodes_calling(g, '_finalize') if g.dominates(c, w)]
                 res = [c for c in nodes_calling(g, 'resolve')
-                       if '_resolver' in norm(node_calls(c, 'resolve')[0].func.value) and g.dominates(c, w)]
+                       if '_resolver' in recv(node_calls(c, 'resolve')[0]) and g.dominates(c, w)]
                 ok = bool(conn) and bool(res)
                 ck.ob(R1, f"{fi.fid} :: {norm1(x)}", ok,
                       "the flag is set after the connection pass and after the name resolution"
@@ -204,7 +204,7 @@ def run(ck):
     reg, rsv = res.methods.get('register'), res.methods.get('resolve')
     ck.need(R5, reg is not None and rsv is not None, "_BlockResolver.register/resolve not found")
     g = ck.cfg(reg.fid, 'M0')
-    app = nodes_where(g, lambda n: any(call_name(c) == 'append' and '_unresolved' in norm(c.func.value)
+    app = nodes_where(g, lambda n: any(call_name(c) == 'append' and '_unresolved' in recv(c)
                                        for c in node_calls(n)))
     chk = nodes_calling(g, '_check_type')
     ok = len(app) == 1 and len(chk) == 1 and g.has_guard(app[0], 'isinstance(blk, str)', True) and \
@@ -219,7 +219,7 @@ def run(ck):
     loop = [n for n in g.nodes if n.kind == 'for' and '_unresolved' in norm(n.ast.iter)]
     sets = nodes_calling(g, 'setattr')
     chk = nodes_calling(g, '_check_type')
-    clr = nodes_where(g, lambda n: any(call_name(c) == 'clear' and '_unresolved' in norm(c.func.value)
+    clr = nodes_where(g, lambda n: any(call_name(c) == 'clear' and '_unresolved' in recv(c)
                                        for c in node_calls(n)))
     ok = len(loop) == 1 and len(sets) == 1 and len(chk) == 1 and len(clr) == 1 and \
         g.dominates(chk[0], sets[0]) and g.dominates(loop[0], chk[0]) and \
